@@ -3,6 +3,7 @@ import itertools
 import math
 import os
 import random
+import re
 import zipfile
 
 from .. import model, runner, tree
@@ -17,7 +18,9 @@ def gen_expr(rng, depth):
     if depth == 0 or rng.random() < 0.25:
         c = rng.random()
         if c < 0.4:
-            return ("lit", rng.choice([0, 1, 2, 3, 5, 7, 10, 100, 1000, 12345, 4294967296, 10 ** 10, 3037000500, 9007199254740993]))
+            # ... and numbers that read as years or dates: next to `/`, `*`, `%`, `+` they are numbers like any other
+            return ("lit", rng.choice([0, 1, 2, 3, 5, 7, 10, 100, 1000, 12345, 4294967296, 10 ** 10, 3037000500, 9007199254740993,
+                                       1970, 1999, 2000, 2024, 2048, 2999, 20480, 19991231]))
         if c < 0.85:
             return ("col", rng.choice(LEAVES))
         if c < 0.93:
@@ -58,6 +61,10 @@ def render(e, rng, parent=0, right=False, words=False, extra=0.1):
     fmt = "%s %s %s"
     if not sym.isalpha() and not r.startswith("-") and rng.random() < 0.35:
         fmt = rng.choice(["%s%s%s", "%s%s%s", "%s %s%s", "%s%s %s"])      # symbols need no blanks around them: `(size*2)+1`
+    if sym == "-" and re.search(r"[0-9]{4}$", l):
+        # four digits that read as a year (also inside a longer number) with a minus glued to them are the beginning of a date
+        # (`2024-01`), by design
+        fmt = rng.choice(["%s %s %s", "%s %s%s"])
     s = fmt % (l, sym, r)
     need = PREC[op] < parent or (PREC[op] == parent and right)
     if need or rng.random() < extra:
